@@ -188,6 +188,19 @@ class FnBounds:
             t = L.get("btc")
             if not t or t.get("k") == "cnc":
                 continue
+            if t.get("k") == "udiv" and (t.get("r") or {}).get("k") == "c":
+                # the rotated ("if (n >= d) do { ... n -= d; } while (n >= d)") form: backedge-taken count = X /u d.  With X >= 0 established by the
+                # guard in front of the loop, k <= floor(X / d) gives X - d*k >= 0
+                try:
+                    X, d = A.scev(t["l"]), int(t["r"]["v"])
+                except Exception:
+                    X = None
+                if X is None or d <= 0:
+                    continue
+                dom = self._ineqs_from(ir.conditions_at(f, L["header"]))
+                if any((lambda c_: c_ is not None and c_ >= 0)(X.add(g, -1).constant()) for g in dom):
+                    out.append(X.add(Lin.sym(("k", L["header"])), -d))
+                continue
             try:
                 T = A.scev(t)
             except Exception:
